@@ -119,17 +119,22 @@ def absorbed_failures(ctx):
     def recover1(error):
         return "err"
 
+    def call(i, f):
+        # "x": the job is rejected by the scheduler itself before it reaches an executor (unknown executor), after the limit check
+        return hold.options(executor="nope")(i, False) if f == "x" else hold(i, f)
+
     @task(namespace="c09a", version="1")
     def main_all(pattern):
-        return catch_all([hold(i, f) for i, f in enumerate(pattern)], ValueError, recover)
+        return catch_all([call(i, f) for i, f in enumerate(pattern)], Exception, recover)
 
     @task(namespace="c09a", version="1")
     def main_each(pattern):
-        return [catch(hold(i, f), ValueError, recover1) for i, f in enumerate(pattern)]
+        return [catch(call(i, f), Exception, recover1) for i, f in enumerate(pattern)]
 
     rng = ctx.rng
     patterns = [[True, True, False, False], [True, False, True, False], [False, True, True, True], [True, True, True, True],
-                [True, False, False], [False, False, True, True, False]]
+                [True, False, False], [False, False, True, True, False],
+                ["x", False, False], [False, "x", False, "x"], ["x", "x", True, False], [True, "x", False]]
     for pattern in patterns:
         for lim in (1, 2):
             for main in (main_all, main_each):
@@ -137,7 +142,7 @@ def absorbed_failures(ctx):
                     c = ctl_sched.Ctl(rng=random.Random(rng.random()))
                     sched = ctl_sched.make_scheduler(c, limits={"r0": lim})
                     st, payload = c.run(sched, main(pattern))
-                    ctx.case(key=("absorbed", tuple(pattern), lim, main.name, tuple(j.eval_args[0][0] if j.eval_args else -1 for j in c.completions)),
+                    ctx.case(key=("absorbed", tuple(str(x) for x in pattern), lim, main.name, tuple(j.eval_args[0][0] if j.eval_args else -1 for j in c.completions)),
                              sample={"pattern": pattern, "limit": lim, "form": main.name, "status": st}, kind="absorbed-failure", status=st)
                     if st == "hang":
                         ctx.violation("C09-hang-idle-with-pending-workflow", "scheduler idle while the workflow is pending (failure absorbed by catch)",
